@@ -297,6 +297,27 @@ def run(report):
             continue
         if len(samples) < 3 and argv == ["--groups"]:
             samples.append({"program": name, "argv": argv, "stdout": first[1].decode("utf-8", "replace"), "identical_runs": reps})
+    # the suggestion of an "unknown recipe" error against Just.Determinism.suggestRecipe (edit distance computed here)
+    def lev(a, b):
+        prev = list(range(len(b) + 1))
+        for i, ca in enumerate(a, 1):
+            cur = [i]
+            for j, cb in enumerate(b, 1):
+                cur.append(min(prev[j] + 1, cur[j - 1] + 1, prev[j - 1] + (ca != cb)))
+            prev = cur
+        return prev[-1]
+    sugg = [((name, files, argv, _), r) for (name, files, argv, _), r in zip(cases, results) if name == "near-miss" and len(argv) <= 2 and argv[-1] in ("buils", "builx", "quild", "bx")]
+    sdrv = C.Driver()
+    # (written in an order that is neither the table's nor the source's)
+    sm = sdrv.batch([{"op": "suggest", "recipes": [[n, lev(argv[-1], n)] for n in ("guild", "build", "built")],
+                      "aliases": [[n, lev(argv[-1], n)] for n in ("bt", "bd")]} for (_, _, argv, _), _ in sugg])
+    for ((name, files, argv, _), r), m in zip(sugg, sm):
+        got = re.search(rb"Did you mean `([^`]*)`", r["outs"][0][2])
+        got = got.group(1).decode() if got else None
+        stats["suggestions_vs_model"] = stats.get("suggestions_vs_model", 0) + 1
+        if got != m["suggestion"]:
+            report.failure("c20-model-suggestion", "`just %s` suggests %r, Just.Determinism.suggestRecipe gives %r" % (" ".join(argv), got, m["suggestion"]),
+                           {"correspondence": "C20 suggestion vs Just.Determinism.suggestRecipe", "files": files, "argv": argv, "model": m, "impl": got}, no_input=True)
     # the order of every table in the dump and the listings: sorted by name, whatever the source order (model: build)
     drv = C.Driver()
     ntab = 150 if tier == "quick" else 3000
